@@ -2594,7 +2594,19 @@ func (f *e1func) leaf(st *fstate, cond ast.Expr, val bool) ([]*Term, bool) {
 				target = target.A[0]
 			}
 			if val {
-				return []*Term{fact(pred[0], subj, target), fact("true", ct)}, true
+				out := []*Term{fact(pred[0], subj, target), fact("true", ct)}
+				if ct.S == "errors.Is" {
+					// as an event (survives later rebinding of the call's arguments): "the error of method M was classified
+					// with errors.Is on this path" - an explicit decision of the code about that failure
+					subj.walk(func(x *Term) bool {
+						if x.K == "mcall" {
+							out = append(out, fact("didErrIs", mk("const", x.S)))
+							return false
+						}
+						return true
+					})
+				}
+				return out, true
 			}
 			return []*Term{fact(pred[1], subj, target), fact("false", ct)}, true
 		}
